@@ -174,7 +174,7 @@ func (w *c18World) stale(kind string) *x509.RevocationList {
 var c18Events = []string{"fetch", "server-publishes-newer", "cache:=fresh(old version)", "cache:=fresh-with-delta", "cache:=base-expired", "cache:=delta-expired", "cache:=both-expired", "cache:=base-without-nextupdate",
 	"cache:=empty", "next-get-fails", "next-set-fails", "next-base-download:transport-error", "next-base-download:404", "next-base-download:garbage", "next-delta-download-fails@0", "next-delta-download-fails@1", "next-delta-download-fails@all",
 	"cache:=empty(miss reported as a wrapped ErrCacheMiss)", "next-base-download:caller-cancels-when-it-has-been-answered",
-	"cache:=the-base-the-server-still-serves+expired-delta"}
+	"cache:=the-base-the-server-still-serves+expired-delta", "next-get-fails-while-handing-back-its-entry", "next-get-reports-a-miss-while-handing-back-its-entry"}
 
 type c18Scenario struct {
 	cache   bool
@@ -198,7 +198,7 @@ func c18Scenarios(tier mc.Tier) []mc.Scenario {
 				// without a cache the cache events do nothing: keep only the ones that matter
 				var e []string
 				for _, ev := range c18Events {
-					if !strings.HasPrefix(ev, "cache:=") && ev != "next-get-fails" && ev != "next-set-fails" {
+					if !strings.HasPrefix(ev, "cache:=") && !strings.HasPrefix(ev, "next-get-") && ev != "next-set-fails" {
 						e = append(e, ev)
 					}
 				}
@@ -259,6 +259,7 @@ func (s *c18Scenario) body(c *mc.Ctx) {
 	deltaHeavy := false
 	var reqs []string
 	missWrapped := false
+	getFaultKeepsEntry, getMissKeepsEntry := false, false
 	var cancelFetch context.CancelFunc // cancels the context of the fetch in progress
 	tr := &netsim.Transport{}
 	tr.Handler = func(r *netsim.Request, raw *http.Request) netsim.Answer {
@@ -315,7 +316,21 @@ func (s *c18Scenario) body(c *mc.Ctx) {
 			if getFault {
 				getFault = false
 				cacheOps[len(cacheOps)-1] = "get-fails"
+				if getFaultKeepsEntry && entry != nil {
+					// the interface only specifies the error: a cache may hand back what it has together with its verdict
+					getFaultKeepsEntry = false
+					return entry.b, errors.New("netsim: cache read failed (entry handed back nevertheless)")
+				}
+				getFaultKeepsEntry = false
 				return nil, errors.New("netsim: cache read failed")
+			}
+			if getMissKeepsEntry {
+				getMissKeepsEntry = false
+				if entry != nil {
+					b := entry.b
+					entry = nil // the cache's own verdict: this entry is gone
+					return b, fmt.Errorf("netsim cache: entry too old for this cache: %w", corecrl.ErrCacheMiss)
+				}
 			}
 			if entry == nil {
 				if missWrapped {
@@ -378,6 +393,10 @@ func (s *c18Scenario) body(c *mc.Ctx) {
 			entry = newC18Bundle(&corecrl.Bundle{BaseCRL: w.stale("base-no-nextupdate")}, false, "base without nextUpdate")
 		case ev == "next-get-fails":
 			getFault = true
+		case ev == "next-get-fails-while-handing-back-its-entry":
+			getFault, getFaultKeepsEntry = true, true
+		case ev == "next-get-reports-a-miss-while-handing-back-its-entry":
+			getMissKeepsEntry = true
 		case ev == "next-set-fails":
 			setFault = true
 		case strings.HasPrefix(ev, "next-base-download:"):
@@ -399,6 +418,10 @@ func (s *c18Scenario) body(c *mc.Ctx) {
 			}
 			p := pred{delta: -1}
 			proceed := true
+			if s.cache && getMissKeepsEntry && !getFault {
+				// the cache will call its entry gone: a miss, whatever it hands back
+				entry = nil
+			}
 			if s.cache {
 				switch {
 				case getFault && !s.discard:
